@@ -1,6 +1,7 @@
 package main
 
 import (
+	"runtime"
 	"errors"
 	"fmt"
 	"os"
@@ -155,8 +156,14 @@ func runC07(res *Result, d *Driver, tier string, seed uint64) {
 	}
 	for rep := 0; rep < reps; rep++ {
 		for _, c := range cases {
-			for cfgN := 0; cfgN < 4; cfgN++ {
+			for cfgN := 0; cfgN < 6; cfgN++ {
 				withSync, ucas := cfgN&1 == 1, cfgN&2 == 2
+				// configurations 4 and 5: ptrace requested without a filter (the child does not stop itself; the parent must
+				// still wait for the result of the exec)
+				withPtrace := cfgN >= 4
+				if withPtrace {
+					ucas = false
+				}
 				marker := fmt.Sprintf("%s/marker-%s-%d", tmp, c.name, cfgN)
 				os.Remove(marker)
 				pf := openProbe()
@@ -168,14 +175,37 @@ func runC07(res *Result, d *Driver, tier string, seed uint64) {
 					r.SyncFunc = func(int) error { called = true; return nil }
 				}
 				c.prep(r, tmp)
-				pid, err := r.Start()
-				if err == nil { // unexpected success: reap
-					var ws syscall.WaitStatus
-					syscall.Wait4(pid, &ws, 0, nil)
+				var pid int
+				var err error
+				if withPtrace {
+					if r.Seccomp != nil {
+						pf.Close()
+						devnull.Close()
+						continue // this configuration is about ptrace WITHOUT a filter
+					}
+					r.Ptrace = true
+					done := make(chan struct{})
+					go func() {
+						runtime.LockOSThread() // ptrace requests must come from the thread that forked
+						defer close(done)
+						pid, err = r.Start()
+						if err == nil { // unexpected success: the tracee is stopped at its exec; kill and reap it
+							syscall.Kill(pid, syscall.SIGKILL)
+							var ws syscall.WaitStatus
+							syscall.Wait4(pid, &ws, syscall.WALL, nil)
+						}
+					}()
+					<-done
+				} else {
+					pid, err = r.Start()
+					if err == nil { // unexpected success: reap
+						var ws syscall.WaitStatus
+						syscall.Wait4(pid, &ws, 0, nil)
+					}
 				}
 				pf.Close()
 				devnull.Close()
-				key := fmt.Sprintf("%s sync=%v ucas=%v", c.name, withSync, ucas)
+				key := fmt.Sprintf("%s sync=%v ucas=%v ptrace=%v", c.name, withSync, ucas, withPtrace)
 				res.Case(key, true, "real-fault")
 				res.Traces++
 				var bad []string
@@ -281,8 +311,23 @@ func runC07(res *Result, d *Driver, tier string, seed uint64) {
 			st, e := os.ReadFile(fmt.Sprintf("/proc/%d/status", pid))
 			if e != nil {
 				bad = append(bad, "callback pid does not exist in the host pid namespace: "+itoa(pid))
-			} else if !after && !strings.Contains(string(st), "NSpid:") {
-				bad = append(bad, "no NSpid")
+			} else {
+				// which process is it? NSpid lists the pid in every nested pid namespace, innermost last
+				inner := ""
+				for _, ln := range strings.Split(string(st), "\n") {
+					if strings.HasPrefix(ln, "NSpid:") {
+						f := strings.Fields(ln)
+						inner = f[len(f)-1]
+					}
+				}
+				switch {
+				case inner == "":
+					bad = append(bad, "no NSpid")
+				case after && inner != "1":
+					bad = append(bad, "sync after exec: the callback's pid is not the container init (pid "+inner+" inside)")
+				case !after && inner == "1":
+					bad = append(bad, "sync before exec: the callback's pid is the container init, not the process about to run the target")
+				}
 			}
 			if fail {
 				return errors.New("refuse")
